@@ -58,7 +58,11 @@ func (c *checkSchema) checkType(name string, typ ischema.Type, ss map[string]isc
 		if jErr, ok := r.(kit.JSchemaError); ok {
 			jErr.SetFile(typ.RootFile)
 			jErr.SetIndex(bytes.Index(jErr.Index()) + typ.Begin)
-			jErr.SetIncorrectUserType(name)
+			if bytes.NewBytes(name).IsUserTypeName() {
+				// Unnamed types (the alternatives of an "or" rule) have generated
+				// names made of a heap address; those are not user types.
+				jErr.SetIncorrectUserType(name)
+			}
 			panic(jErr)
 		}
 
